@@ -658,6 +658,39 @@ fn check_series(start: f64, incs: &[f64], ys: &[f64], nan_mask: &[bool], ops: &[
             }
         }
     }
+    // history on the final series as an object: it has been interpolated, integrated and searched above; it is now extended
+    // through its public abscissa domain and ordinates and must answer like a series freshly built from what it holds
+    {
+        let n = m.xs.len();
+        if n >= 2 && m.ys.iter().all(|y| y.is_finite()) {
+            let span = (m.xs[n - 1] - m.xs[0]).abs().max(1e-3 * (1.0 + m.xabs()));
+            let mut ext = cur.clone();
+            let (xa, xb) = (m.xs[n - 1] + 0.25 * span, m.xs[n - 1] + 0.75 * span);
+            let (ya, yb) = (m.ys[n - 1] + 1.0, m.ys[0] - 2.0);
+            if ext.x.push(xa).is_ok() && ext.x.push(xb).is_ok() {
+                ext.y.push(ya);
+                ext.y.push(yb);
+                let mut xs2 = m.xs.clone();
+                xs2.extend([xa, xb]);
+                let mut ys2 = m.ys.clone();
+                ys2.extend([ya, yb]);
+                if let Ok(fresh) = Series1::try_new(xs2.clone(), ys2.clone()) {
+                    for who in [&ext, &ext.clone()] {
+                        for q in [xa, 0.5 * (xa + xb), xb, 0.5 * (m.xs[n - 1] + xa), m.xs[0]] {
+                            let (g, w) = (who.interpolate(q), fresh.interpolate(q));
+                            ensure!(g == w || (g.is_nan() && w.is_nan()), "C17/history/interpolate_after_extension", "after extending the series, interpolate({q:e}) = {g:e}; a series built from the same data gives {w:e}");
+                        }
+                        let (ga, wa) = (who.area_under(), fresh.area_under());
+                        ensure!(ga == wa || (ga - wa).abs() <= 1e-12 * wa.abs(), "C17/history/area_after_extension", "after extending the series, area_under = {ga:e}; fresh series {wa:e}");
+                        let (gl, wl) = (who.best_fit_line(), fresh.best_fit_line());
+                        ensure!((gl.m() == wl.m() && gl.b() == wl.b()) || (gl.m().is_nan() && wl.m().is_nan()), "C17/history/fit_after_extension", "after extending the series its best-fit line differs from a fresh series's");
+                        ensure!(who.x_max() == xb && who.x.bounds().map(|b| b.max) == Some(xb), "C17/history/bounds_after_extension", "after extending the series x_max / bounds do not include the new knots");
+                    }
+                    cx.label("series_extended");
+                }
+            }
+        }
+    }
     cx.label_if(any_repeat, "repeated_abscissa");
     if applied >= 2 && cut_inside && (any_repeat || neg_scale) {
         cx.nontrivial();
